@@ -14,7 +14,7 @@ for d in $IDS; do
   git -C "$WT" apply "/verif/seeded/$d/patch.diff" || { echo "$d patch-does-not-apply" >> "$OUT"; continue; }
   prop=$(echo "$d" | cut -c1-3)
   checks="$prop"
-  case "$d" in C13b|C07c|C08d|C11d|C01e|C02e) checks="C03";; C11e) checks="C20";; C07b) checks="C07 C03";; esac
+  case "$d" in C13b|C07c|C08d|C11d|C01e|C02e|C01f|C04f|C09f) checks="C03";; C11e) checks="C20";; C07b) checks="C07 C03";; esac
   for c in $checks; do
     VERIF_REPO="$WT" ./check "$c" --tier quick > /tmp/replay_$$.log 2>&1; rc=$?
     b=$(grep -m1 "bucket=" /tmp/replay_$$.log | sed 's/detail=.*//' | cut -c1-120)
